@@ -14,7 +14,7 @@ RULE = ("positions: case = (abbreviation text — serialised G1 scripts with exp
         "numbering: case = (G1 script with field atoms, html-family syntax, options); oracle = reference rendering with a marking field callback: every empty "
         "attribute value and every empty non-self-closed leaf gets its own marker, markers are 1,2,3… in document order, explicit fields print base+n per value "
         "with disjoint increasing ranges — exact string equality (format off) / white-space-insensitive (format on). "
-        "disjoint: every key of the html/xsl snippet tables alone and nested (exhaustive), and generated text-only items with 2–3 explicit fields, children and later siblings: marker index sets of different attribute values/text chunks, recovered by an "
+        "disjoint: every key of the html/xsl snippet tables alone and nested (exhaustive), generated text-only items with 2–3 explicit fields, children and later siblings, and generated elements whose id/class values carry fields under comment.enabled (the closing comment counts as a value): marker index sets of different attribute values/text chunks, recovered by an "
         "independent lexer, are pairwise disjoint and increasing in document order. "
         "Non-trivial: ≥ 2 output lines and ≥ 3 callback invocations (positions); ≥ 2 markers (numbering/disjoint).")
 ASSUME = ["callbacks return strings without line breaks and leave the newline/baseIndent strings unchanged; field placeholders are single-line (the stream's push() is documented as 'without newline processing')",
@@ -241,7 +241,7 @@ def check_disjoint(case, rec):
     rec.evals()
     try:
         with guard():
-            out = expand(abbr, {'syntax': syntax, 'options': {'output.field': lambda index, placeholder, **kw: '⟦%d⟧' % index, 'output.format': bool(case.get('format'))}})
+            out = expand(abbr, {'syntax': syntax, 'options': dict(case.get('options') or {}, **{'output.field': lambda index, placeholder, **kw: '⟦%d⟧' % index, 'output.format': bool(case.get('format'))})})
     except Exception as e:
         rec.fail(core.exc_bucket(e), '%r: %s: %s' % (abbr, type(e).__name__, core.short(str(e), 150)))
         return
@@ -253,10 +253,11 @@ def check_disjoint(case, rec):
                     idx = [int(x) for x in re.findall(r'⟦(\d+)⟧', m.group(2))]
                     if idx:
                         sets.append((idx, 'attribute %s of <%s>' % (m.group(1), t[1])))
-        elif t[0] == 'text':
+        elif t[0] in ('text', 'comment'):
+            # (a generated comment that repeats an id/class value with fields is a value of its own)
             idx = [int(x) for x in re.findall(r'⟦(\d+)⟧', t[1])]
             if idx:
-                sets.append((idx, 'text %r' % t[1].strip()[:30]))
+                sets.append((idx, '%s %r' % (t[0], t[1].strip()[:30])))
     if sum(len(s[0]) for s in sets) >= 2:
         rec.nontrivial()
     prev_max = 0
@@ -443,6 +444,40 @@ def snippet_children_case(draw):
 
 def shard_snippet_children(ctx, shard, nshards, n):
     ctx.run_hypothesis('disjoint', snippet_children_case(), n, seed_key=300 + shard)
+    ctx.run_hypothesis('disjoint', comment_field_case(), n, seed_key=400 + shard)
+
+
+@st.composite
+def comment_field_case(draw):
+    "comment.enabled with id/class values that carry explicit fields: the closing comment repeats them and is followed by further tabstops"
+    fld = lambda: draw(st.sampled_from(['${0}', '${1}', '${1:main}', '${2:a}-${1:b}', 'x${0}', '${3}']))
+    def element():
+        name = draw(st.sampled_from(['div', 'section', 'li', 'p']))
+        how = draw(st.sampled_from(['id', 'class', 'both', 'plain']))
+        s = name
+        if how in ('id', 'both'):
+            s += '[id=%s]' % fld()
+        if how in ('class', 'both'):
+            s += '[class=%s]' % fld()
+        if how == 'plain':
+            s += draw(st.sampled_from(['#k', '.c', '']))
+        if draw(st.integers(0, 3)) == 0:
+            s += '*2'
+        return s
+    n = draw(st.integers(1, 3))
+    parts = [element() for _ in range(n)]
+    tail = draw(st.sampled_from(['a', 'img', 'b[title]', 'input+a', 'i']))
+    shape = draw(st.sampled_from(['siblings', 'nested', 'parent']))
+    if shape == 'siblings':
+        abbr = '+'.join(parts + [tail])
+    elif shape == 'nested':
+        abbr = ('>'.join(parts) + '^' * (len(parts) - 1) + tail) if len(parts) > 1 else (parts[0] + '+' + tail)
+    else:
+        abbr = 'ul>' + '+'.join(parts) + '^' + tail
+    opts = {'comment.enabled': True}
+    if draw(st.booleans()):
+        opts['comment.after'] = draw(st.sampled_from(['\n<!-- /[#ID][.CLASS] -->', '<!-- /[#ID][.CLASS] -->', '\n<!-- [#ID] end -->']))
+    return {'abbr': abbr, 'syntax': draw(st.sampled_from(['html', 'html', 'xml', 'jsx'])), 'format': draw(st.booleans()), 'options': opts}
 
 
 def shard_aliases(ctx, shard, nshards):
